@@ -13,7 +13,10 @@ Clause → theorem
   exactly one interval (right-open / left-open / include_max)  rightOpen_partition, leftOpen_partition,
                                                                includeMax_partition, max_included_iff
   masks aligned with input positions                           masks_aligned, ppi_mask_aligned
-  boundaries contain members (Width / Number)                  member_within_boundaries
+  boundaries contain members (Width / Number)                  mask_member_within_boundaries (on the masks
+                                                               returned; via ivPreds_get, member_within_boundaries)
+  reference values = configured centre/left/right; callable:
+  none in the model (value computed by the user's function)    width_refs_spec, number_refs_spec
   boundaries do not overlap (shared edge, Width / Number)      boundaries_chained
   PointsPerInterval midpoint boundaries contain members,
   are chained, lower <= upper (hypothesis: chunks ordered)     ppi_boundaries_contain_members, boundsContain_ordered
@@ -21,8 +24,11 @@ Clause → theorem
   exactly the small intervals are dropped                      drop_exactly_small, drop_keeps_order
   RuntimeError iff too few                                     too_few_error_iff
   constructor caps: Number  min_n_intervals -> min(., n_intervals)   number_error_iff_capped, number_no_drop_no_error
+                    (explicit value_range) and, for any value_range incl. the default data range,
+                    number_error_iff_capped_any_range, number_no_drop_no_error_any_range, numberSliceF_empty
+                    (all at Float: `numberSliceF` is the Float instance the driver runs)
                     PointsPerInterval min_n_points -> min(., n_points)  ppi_kept_iff_capped, ppi_full_chunk_kept
-  PointsPerInterval: positions partitioned                     ppi_partition
+  PointsPerInterval: positions partitioned                     ppi_partition (chunks), ppi_partition_masks (masks)
   the Width / Number slicers' intervals ARE the pairs and masks
   of one edge list (ties the lemmas above to `_slice`)         widthIntervals_spec, numberIntervals_spec
 
@@ -299,6 +305,93 @@ theorem numberIntervals_spec [Add α] (im : Bool) (ref : RefKind) (w hw upper : 
   · rw [List.map_map]
     exact (zip3_proj _ _ _ hmlen (by simp [hplen])).2
 
+omit [LinearOrder α] in
+theorem zip3_mid {A B C : Type} (masks : List A) (refs : List B) (pairs : List C)
+    (h1 : masks.length = pairs.length) (h2 : refs.length = pairs.length) :
+    (masks.zip (refs.zip pairs)).map (fun x => x.2.1) = refs := by
+  rw [show (fun x : A × B × C => x.2.1) = Prod.fst ∘ Prod.snd from rfl,
+    ← List.map_map, List.map_snd_zip (by simp [h1, h2]), List.map_fst_zip (by simp [h2])]
+
+/-- **reference values of the Width slicer**: `center` = start + width/2, `right` = centre + width/2,
+`left` = centre − width/2 (the code's own arithmetic, in this order), `none` = left to the user's
+callable (evaluated on the interval's members by the code; the harness compares it) -/
+theorem width_refs_spec [Add α] [Sub α] (ro : Bool) (ref : RefKind) (w hw : α) (starts data : List α)
+    (hne : starts ≠ []) :
+    (widthIntervalsOfStarts ro ref w hw starts data).map (·.ref) =
+      starts.map fun s => match ref with
+        | .center => some (s + hw)
+        | .right => some (s + hw + hw)
+        | .left => some (s + hw - hw)
+        | .callable => none := by
+  unfold widthIntervalsOfStarts
+  have hl : starts.getLast? = some (starts.getLast hne) := List.getLast?_eq_some_getLast hne
+  simp only [hl]
+  set pairs := edgePairs (starts ++ [starts.getLast hne + w]) with hp
+  have hplen : pairs.length = starts.length := by
+    rw [hp, edgePairs_length]; simp
+  have hmlen : (edgeMasks ro (!ro) (!ro) pairs data).length = pairs.length := by
+    simp [edgeMasks, ivPreds_length]
+  have key := fun (refs : List (Option α)) (h : refs.length = pairs.length) =>
+    zip3_mid (edgeMasks ro (!ro) (!ro) pairs data) refs pairs hmlen h
+  rw [List.map_map]
+  cases ref <;>
+  · refine (key _ (by simp [hplen])).trans ?_
+    simp [List.map_map, Function.comp_def]
+
+/-- **reference values of the Number slicer**: `center` = start + width/2, `right` = start + width,
+`left` = start, `none` for a callable -/
+theorem number_refs_spec [Add α] (im : Bool) (ref : RefKind) (w hw upper : α) (starts data : List α)
+    (hne : starts ≠ []) :
+    (numberIntervalsOfStarts im ref w hw upper starts data).map (·.ref) =
+      starts.map fun s => match ref with
+        | .center => some (s + hw)
+        | .right => some (s + w)
+        | .left => some s
+        | .callable => none := by
+  unfold numberIntervalsOfStarts
+  have hemp : starts.isEmpty = false := by cases starts <;> simp_all
+  simp only [hemp, Bool.false_eq_true, if_false]
+  set pairs := edgePairs (starts ++ [upper]) with hp
+  have hplen : pairs.length = starts.length := by
+    rw [hp, edgePairs_length]; simp
+  have hmlen : (edgeMasks true false im pairs data).length = pairs.length := by
+    simp [edgeMasks, ivPreds_length]
+  have key := fun (refs : List (Option α)) (h : refs.length = pairs.length) =>
+    zip3_mid (edgeMasks true false im pairs data) refs pairs hmlen h
+  rw [List.map_map]
+  cases ref <;>
+  · refine (key _ (by simp [hplen])).trans ?_
+    rfl
+
+/-- the `k`-th predicate is `inIv` on the `k`-th pair; upper end closedness `lhc` for the last one -/
+theorem ivPreds_get (lc hc lhc : Bool) (pairs : List (α × α)) (k : Nat) (hk : k < pairs.length) :
+    (ivPreds lc hc lhc pairs)[k]'(by rw [ivPreds_length]; exact hk) =
+      inIv lc (if k + 1 = pairs.length then lhc else hc) pairs[k].1 pairs[k].2 := by
+  induction pairs generalizing k with
+  | nil => simp at hk
+  | cons p rest ih =>
+    obtain ⟨lo, hi⟩ := p
+    cases rest with
+    | nil =>
+      have : k = 0 := by simpa using hk
+      subst this
+      simp [ivPreds]
+    | cons q rest' =>
+      cases k with
+      | zero => simp [ivPreds]
+      | succ k =>
+        have := ih k (by simpa using hk)
+        simpa [ivPreds] using this
+
+/-- **boundaries contain members, for the masks the slicers return** -/
+theorem mask_member_within_boundaries (lc hc lhc : Bool) (pairs : List (α × α)) (data : List α)
+    (k j : Nat) (hk : k < pairs.length) (hj : j < data.length)
+    (hm : ((edgeMasks lc hc lhc pairs data)[k]'(by simp [edgeMasks, ivPreds_length, hk]))[j]'(by
+      simp [edgeMasks, hj]) = true) :
+    pairs[k].1 ≤ data[j] ∧ data[j] ≤ pairs[k].2 := by
+  rw [masks_aligned lc hc lhc pairs data k j (by rw [ivPreds_length]; exact hk) hj, ivPreds_get _ _ _ _ _ hk] at hm
+  exact member_within_boundaries _ _ _ _ _ hm
+
 /-! ### PointsPerIntervalSlicer -/
 
 theorem chunksOf_flatten {β : Type} (k n : Nat) (l : List β) (h : l.length = k * n) :
@@ -341,6 +434,33 @@ theorem ppi_partition (nPoints : Nat) (lastFull : Bool) (perm : List Nat)
     rw [List.count_flatten]
   rw [h1, ppiChunks_flatten, hperm.count_eq]
   exact List.count_eq_one_of_mem (List.nodup_range) (List.mem_range.mpr hj)
+
+theorem countP_contains_eq_count (L : List (List Nat)) (j : Nat) (hnd : L.flatten.Nodup) :
+    L.countP (fun c => c.contains j) = L.flatten.count j := by
+  induction L with
+  | nil => rfl
+  | cons c L ih =>
+    rw [List.flatten_cons, List.nodup_append] at hnd
+    rw [List.countP_cons, List.flatten_cons, List.count_append, ih hnd.2.1, Nat.add_comm]
+    congr 1
+    by_cases hm : j ∈ c
+    · rw [List.count_eq_one_of_mem hnd.1 hm]; simp [hm]
+    · rw [List.count_eq_zero_of_not_mem hm]; simp [hm]
+
+/-- **PointsPerInterval partition, on the masks**: every input position is `true` in exactly one
+of the masks built from the chunks -/
+theorem ppi_partition_masks (nPoints : Nat) (lastFull : Bool) (perm : List Nat)
+    (hperm : List.Perm perm (List.range perm.length)) (j : Nat) (hj : j < perm.length) :
+    (((ppiChunks nPoints lastFull perm).map (chunkMask perm.length)).countP
+      fun m => m[j]? = some true) = 1 := by
+  rw [List.countP_map]
+  have hfun : ((fun m : List Bool => decide (m[j]? = some true)) ∘ chunkMask perm.length) =
+      fun c => c.contains j := by
+    funext c
+    simp [chunkMask, hj]
+  rw [hfun, countP_contains_eq_count _ _ (by rw [ppiChunks_flatten]; exact hperm.nodup_iff.mpr List.nodup_range),
+    ppiChunks_flatten, hperm.count_eq]
+  exact List.count_eq_one_of_mem List.nodup_range (List.mem_range.mpr hj)
 
 /-- a mask is `true` at position `j` iff `j` is in the chunk (input-position space). -/
 theorem ppi_mask_aligned (n : Nat) (chunk : List Nat) (j : Nat) (hj : j < n) :
@@ -420,6 +540,57 @@ theorem number_no_drop_no_error (n : Nat) (im : Bool) (ref : RefKind) (a b : Flo
   rw [if_neg]
   rw [numberPreDrop_length]
   exact not_lt.mpr (min_le_right _ _)
+
+/-- the value range the Number slicer works on: the configured `value_range`, by default
+`(min data, max data)`; `none` for empty data without configured range -/
+def numberRange (range : Option (Float × Float)) (data : List Float) : Option (Float × Float) :=
+  match range with
+  | some r => some r
+  | none => match listMin data, listMax data with
+    | some a, some b => some (a, b)
+    | _, _ => none
+
+theorem numberSliceF_eq_of_range (n : Nat) (im : Bool) (ref : RefKind) (range : Option (Float × Float))
+    (a b : Float) (mp mi : Nat) (data : List Float) (hr : numberRange range data = some (a, b)) :
+    numberSliceF n im ref range mp mi data =
+      finishSlice (min mi n) (dropSmall mp (numberPreDrop n im ref a b data)) := by
+  unfold numberSliceF
+  simp only
+  change (match numberRange range data with
+    | none => Except.error SliceErr.emptyData
+    | some (a, b) => _) = _
+  rw [hr]
+  rfl
+
+theorem numberSliceF_empty (n : Nat) (im : Bool) (ref : RefKind) (range : Option (Float × Float))
+    (mp mi : Nat) (data : List Float) (hr : numberRange range data = none) :
+    numberSliceF n im ref range mp mi data = .error .emptyData := by
+  unfold numberSliceF
+  simp only
+  change (match numberRange range data with
+    | none => Except.error SliceErr.emptyData
+    | some (a, b) => _) = _
+  rw [hr]
+
+/-- **capped `min_n_intervals`, any value range** (configured or the default data range) -/
+theorem number_error_iff_capped_any_range (n : Nat) (im : Bool) (ref : RefKind)
+    (range : Option (Float × Float)) (a b : Float) (mp mi : Nat) (data : List Float)
+    (hr : numberRange range data = some (a, b)) :
+    (∃ need got, numberSliceF n im ref range mp mi data = .error (.tooFewIntervals need got)) ↔
+      (dropSmall mp (numberPreDrop n im ref a b data)).length < mi ∧
+      (dropSmall mp (numberPreDrop n im ref a b data)).length < n := by
+  rw [numberSliceF_eq_of_range n im ref range a b mp mi data hr, ← numberSliceF_eq]
+  exact number_error_iff_capped n im ref a b mp mi data
+
+theorem number_no_drop_no_error_any_range (n : Nat) (im : Bool) (ref : RefKind)
+    (range : Option (Float × Float)) (a b : Float) (mi : Nat) (data : List Float)
+    (hr : numberRange range data = some (a, b)) :
+    numberSliceF n im ref range 0 mi data = .ok (numberPreDrop n im ref a b data) := by
+  rw [numberSliceF_eq_of_range n im ref range a b 0 mi data hr, ← numberSliceF_eq]
+  exact number_no_drop_no_error n im ref a b mi data
+
+example (r : Float × Float) (data : List Float) : numberRange (some r) data = some r := rfl
+example : numberRange none [] = none := rfl
 
 /-- masks the PointsPerInterval model keeps: threshold `min(min_n_points, n_points)` -/
 def ppiKept (nPoints minPts : Nat) (masks : List (List Bool)) : List (List Bool) :=
